@@ -24,7 +24,8 @@ from concurrent.futures import ThreadPoolExecutor
 sys.path.insert(0, os.path.dirname(os.path.dirname(os.path.abspath(__file__))))
 from sim import report  # noqa: E402
 from sim.choices import Choices, derive_seed, shrink  # noqa: E402
-from sim.cgen import gen_unit, gen_project, gen_c3_unit  # noqa: E402
+from sim.cgen import (gen_unit, gen_project, gen_c3_unit, gen_bf,  # noqa: E402
+                      gen_pascal, gen_python)
 
 PROP = "C30"
 HERE = os.path.dirname(os.path.abspath(__file__))
@@ -132,6 +133,10 @@ def gen_subject(ch, sid, tier, chosen):
             outs.append("exe")
         if ch.chance(1, 6, "hex"):
             outs.append("hex")
+        if ch.chance(1, 4, "rtimg"):
+            outs.append("rtimg")
+        if ch.chance(1, 6, "plink"):
+            outs.append("plink")
         ops.append({"id": f"s{sid}-{t}-O{opt}", "src": src, "march": t,
                     "opt": opt, "debug": bool(ch.chance(1, 5, "debug")),
                     "layout": ch.weighted([2, 1], "layout"),
@@ -239,6 +244,26 @@ def gen_c3_ops(ch, b, chosen):
     return ops
 
 
+def gen_other_lang_ops(ch, b, chosen):
+    """Brainfuck, Pascal and Python front-ends."""
+    ops = []
+    cands = [t for t in chosen if base_of(t) in RICH]
+    if not cands:
+        return ops
+    for n in range(ch.weighted([3, 2, 1], "nother")):
+        t = ch.pick(cands, "othertarget")
+        lang = ch.pick(["bf", "pascal", "pascal", "python"], "otherlang")
+        if lang == "python" and base_of(t) != "x86_64":
+            lang = "bf"
+        src = {"bf": gen_bf, "python": gen_python}.get(
+            lang, lambda c: gen_pascal(c, f"{b}_{n}"))(ch)
+        opt = ch.pick(OPTS, "otheropt")
+        outs = ["obj"] + (["rtimg"] if ch.chance(1, 3, "otherrt") else [])
+        ops.append({"id": f"{lang}{b}.{n}-{t}-O{opt}", "lang": lang,
+                    "src": src, "march": t, "opt": opt, "outputs": outs})
+    return ops
+
+
 def gen_project_ops(ch, b, chosen):
     """Multi-module programs: archive + link with libraries."""
     ops = []
@@ -296,6 +321,7 @@ def gen_batch(seed, b):
     ops += gen_asm_ops(ch, b, chosen)
     ops += gen_project_ops(ch, b, chosen)
     ops += gen_c3_ops(ch, b, chosen)
+    ops += gen_other_lang_ops(ch, b, chosen)
     runs = []
     k = 4
     for r in range(k):
